@@ -19,7 +19,10 @@ RULE = ('seeded: every public function of desper/math.py (static table harness/m
         '(genuine Python ints beyond 2**53, Fractions with denominators 3 7 9 10 11 13 6 15, mixed; nothing '
         'converted; value and float contamination judged), sqrt/angle functions '
         'exactly under the stand-in interpretation (translator validation) and on floats of magnitude '
-        '1e-3..1e3 (tolerance test, limit thresholds next to the length); plus every attribute string of '
+        '1e-3..1e3 (tolerance test, limit thresholds next to the length); 80 (quick) / 1500 (thorough) call '
+        'SEQUENCES in one process: operand objects (plain lists) passed as right-hand / vector operands, edited in '
+        'place between two identical products, shared across functions, and user number objects (`!v`) whose '
+        'arithmetic calls back into desper.math; plus every attribute string of '
         'length 0..5 over xyzw+aX on Vec2, Vec3, Vec4 (3 x 9331 strings).  Non-trivial: the scenario '
         'has at least one call that returned a value with a non-zero entry; distinct by scenario text.')
 ASSUMPTIONS = [
@@ -71,7 +74,7 @@ def pre_build():
     # Props/C18.lean no longer compiles (the failing-input search and the replay use it)
     _build_driver()
     return {k: inv[k] for k in ('source', 'source_sha1', 'functions_traced', 'always_raise',
-                                'untranslatable', 'paths', 'preconditions', 'float_contaminated', 'float_for_int_arguments', 'not_attempted', 'swizzle',
+                                'untranslatable', 'paths', 'preconditions', 'purity', 'float_contaminated', 'float_for_int_arguments', 'not_attempted', 'swizzle',
                                 'swizzle_untranslatable', 'rewrote_MathGen', 'rewrote_MathExec')} | {
         'translated': len(inv['translated']), 'transcendental': len(inv['transcendental'])}
 
@@ -116,8 +119,15 @@ def stats(scenarios, impl_obs):
     calls = 0
     for lines, obs in zip(scenarios, impl_obs):
         for ln, o in zip(lines, obs):
-            calls += 1
             t, u = ln.split(), o.split()
+            if t[0] in ('obj', 'set'):
+                modes[t[0]] = modes.get(t[0], 0) + 1
+                continue
+            calls += 1
+            if any(x.startswith('@') for x in t):
+                modes['call-with-object-operand'] = modes.get('call-with-object-operand', 0) + 1
+            if any(x.startswith('!') for x in t):
+                modes['call-with-reentrant-number'] = modes.get('call-with-reentrant-number', 0) + 1
             modes[t[0]] = modes.get(t[0], 0) + 1
             name = t[1] + '.swizzle' if t[0] == 'swz' else t[1]
             per[name] = per.get(name, 0) + 1
@@ -141,8 +151,18 @@ def extra_checks(ctx):
         'how': 'real desper.math on exact rationals vs. compiled MathExec.lean (driver), equality; '
                'swizzle: all 3 x 9331 strings',
     }
+    # purity obligation of the translation: a function that keeps state between calls is not
+    # described by the trace of one call - a broken obligation (the search for a failing input
+    # follows; the sequence scenarios exercise exactly such state)
+    pur = inv.get('purity', {})
+    if pur.get('broken_named'):
+        ctx.broken.append({'kind': 'purity obligation of the translation', 'entries': pur['broken_named'],
+                           'impure_functions': pur['impure_functions'],
+                           'state_objects': pur['state_objects']})
     if ctx.violations:
         return          # the oracle explains what is wrong with the implementation: a finding
+    if pur.get('broken_named'):
+        return          # impure code: a disagreement with the one-call translation is to be expected
     gen_broken = [t for b in ctx.broken if b['kind'] == 'proof' for t in b.get('theorems', [])
                   if 'Generated/MathGen.lean' in t or 'MathExec.lean' in t]
     if gen_broken:
